@@ -4,7 +4,7 @@ import JominiModel.Spec.Scalar
 Helper lemmas for the scalar model (C11).
 -/
 namespace Jomini.Scalar
-open Jomini
+open Jomini Jomini.Spec.Scalar
 
 theorem decFrom_ge (d : Bytes) (acc : Nat) : acc ≤ decFrom d acc := by
   induction d generalizing acc with
@@ -115,25 +115,39 @@ theorem toU64_ok_iff (s : Bytes) (v : Nat) :
           cases left <;> simp [h, not_isDigit_43] <;> grind
       · simp [h43]; grind
 
-/-- `to_i64` after one arm of `to_i64_t`. -/
-theorem toI64Go_ok (data : Bytes) (sign : Int) (start : Nat) (v : Int) :
+/-- largest magnitude `to_i64_t` accepts for a sign: `2^63` for `-`, `2^63-1` otherwise. -/
+def signLimit (sign : Int) : Nat := if sign < 0 then I64_MIN_ABS else I64_MAX
+
+theorem signLimit_one : signLimit 1 = 2^63 - 1 := by simp [signLimit, I64_MAX]
+theorem signLimit_neg_one : signLimit (-1) = 2^63 := by simp [signLimit, I64_MIN_ABS]
+
+/-- `to_i64` after one arm of `to_i64_t` (`sign` is `1` or `-1`). -/
+theorem toI64Go_ok (data : Bytes) (sign : Int) (start : Nat) (v : Int) (hs : sign = 1 ∨ sign = -1) :
     requireEmpty (toI64Go data sign start) = .ok v ↔
-    ∃ n, toU64T2 data start = .ok (n, []) ∧ n ≤ I64_MAX ∧ v = sign * (n : Int) := by
-  unfold toI64Go requireEmpty
+    ∃ n, toU64T2 data start = .ok (n, []) ∧ n ≤ signLimit sign ∧ v = sign * (n : Int) := by
+  unfold toI64Go requireEmpty signLimit
   cases h : toU64T2 data start with
   | error e => simp
   | ok p =>
     obtain ⟨n, left⟩ := p
-    by_cases hn : n > I64_MAX
-    · simp [hn]; intro _ _ ; omega
-    · cases left <;> simp [hn] <;> grind
+    rcases hs with rfl | rfl
+    · simp only [show ¬ ((1 : Int) < 0) by decide, if_false]
+      by_cases hn : n > I64_MAX
+      · simp [hn]; intro _ _ ; omega
+      · cases left <;> simp [hn] <;> grind
+    · simp only [show ((-1 : Int) < 0) by decide, if_true]
+      by_cases hn : n > I64_MIN_ABS
+      · simp [hn]; intro _ _ ; omega
+      · cases left <;> simp [hn] <;> grind
 
 theorem toI64_ok_iff (s : Bytes) (v : Int) :
     toI64 s = .ok v ↔
-      ∃ c data n, s = c :: data ∧ n ≤ I64_MAX ∧
-        ((isDigit c = true ∧ toU64T2 data (digitVal c) = .ok (n, []) ∧ v = (n : Int)) ∨
-         (c = 45 ∧ toU64T2 data 0 = .ok (n, []) ∧ v = -(n : Int)) ∨
-         (c = 43 ∧ toU64T2 data 0 = .ok (n, []) ∧ v = (n : Int))) := by
+      ∃ c data n, s = c :: data ∧
+        ((isDigit c = true ∧ toU64T2 data (digitVal c) = .ok (n, []) ∧ n ≤ I64_MAX ∧ v = (n : Int)) ∨
+         (c = 45 ∧ toU64T2 data 0 = .ok (n, []) ∧ n ≤ I64_MIN_ABS ∧ v = -(n : Int)) ∨
+         (c = 43 ∧ toU64T2 data 0 = .ok (n, []) ∧ n ≤ I64_MAX ∧ v = (n : Int))) := by
+  have lpos : signLimit 1 = I64_MAX := by simp [signLimit]
+  have lneg : signLimit (-1) = I64_MIN_ABS := by simp [signLimit]
   cases s with
   | nil => simp [toI64, toI64T, requireEmpty]
   | cons c data =>
@@ -142,56 +156,843 @@ theorem toI64_ok_iff (s : Bytes) (v : Int) :
     · have h45 : c ≠ 45 := by rintro rfl; simp [not_isDigit_45] at hc
       have h43 : c ≠ 43 := by rintro rfl; simp [not_isDigit_43] at hc
       simp only [hc, if_true]
-      rw [toI64Go_ok]
+      rw [toI64Go_ok _ _ _ _ (Or.inl rfl), lpos]
       constructor
       · rintro ⟨n, h1, h2, h3⟩
-        exact ⟨c, data, n, ⟨rfl, rfl⟩, h2, Or.inl ⟨hc, h1, by simpa using h3⟩⟩
-      · rintro ⟨c', data', n, ⟨rfl, rfl⟩, h2, h | h | h⟩
-        · exact ⟨n, h.2.1, h2, by simpa using h.2.2⟩
+        exact ⟨c, data, n, ⟨rfl, rfl⟩, Or.inl ⟨hc, h1, h2, by simpa using h3⟩⟩
+      · rintro ⟨c', data', n, ⟨rfl, rfl⟩, h | h | h⟩
+        · exact ⟨n, h.2.1, h.2.2.1, by simpa using h.2.2.2⟩
         · exact absurd h.1 h45
         · exact absurd h.1 h43
     · simp only [hc, Bool.false_eq_true, if_false]
       by_cases h45 : c = 45
       · subst h45
         simp only [beq_self_eq_true, if_true]
-        rw [toI64Go_ok]
+        rw [toI64Go_ok _ _ _ _ (Or.inr rfl), lneg]
         constructor
         · rintro ⟨n, h1, h2, h3⟩
-          exact ⟨45, data, n, ⟨rfl, rfl⟩, h2, Or.inr (Or.inl ⟨rfl, h1, by simpa using h3⟩)⟩
-        · rintro ⟨c', data', n, ⟨rfl, rfl⟩, h2, h | h | h⟩
+          exact ⟨45, data, n, ⟨rfl, rfl⟩, Or.inr (Or.inl ⟨rfl, h1, h2, by simpa using h3⟩)⟩
+        · rintro ⟨c', data', n, ⟨rfl, rfl⟩, h | h | h⟩
           · exact absurd h.1 hc
-          · exact ⟨n, h.2.1, h2, by simpa using h.2.2⟩
+          · exact ⟨n, h.2.1, h.2.2.1, by simpa using h.2.2.2⟩
           · exact absurd h.1 (by decide)
       · by_cases h43 : c = 43
         · subst h43
           simp only [show ((43 : UInt8) == 45) = false by decide, beq_self_eq_true, if_true, Bool.false_eq_true, if_false]
-          rw [toI64Go_ok]
+          rw [toI64Go_ok _ _ _ _ (Or.inl rfl), lpos]
           constructor
           · rintro ⟨n, h1, h2, h3⟩
-            exact ⟨43, data, n, ⟨rfl, rfl⟩, h2, Or.inr (Or.inr ⟨rfl, h1, by simpa using h3⟩)⟩
-          · rintro ⟨c', data', n, ⟨rfl, rfl⟩, h2, h | h | h⟩
+            exact ⟨43, data, n, ⟨rfl, rfl⟩, Or.inr (Or.inr ⟨rfl, h1, h2, by simpa using h3⟩)⟩
+          · rintro ⟨c', data', n, ⟨rfl, rfl⟩, h | h | h⟩
             · exact absurd h.1 hc
             · exact absurd h.1 (by decide)
-            · exact ⟨n, h.2.1, h2, by simpa using h.2.2⟩
+            · exact ⟨n, h.2.1, h.2.2.1, by simpa using h.2.2.2⟩
         · have e45 : (c == 45) = false := by simpa using h45
           have e43 : (c == 43) = false := by simpa using h43
           simp only [e45, e43, Bool.false_eq_true, if_false]
           constructor
           · intro h; simp [requireEmpty] at h
-          · rintro ⟨c', data', n, ⟨rfl, rfl⟩, h2, h | h | h⟩
+          · rintro ⟨c', data', n, ⟨rfl, rfl⟩, h | h | h⟩
             · exact absurd h.1 hc
             · exact absurd h.1 h45
             · exact absurd h.1 h43
 
-/-- digits whose value exceeds `i64::MAX` make every arm of `to_i64_t` fail with `Overflow`
-(either inside the u64 accumulator or at `i64::try_from`). -/
+/-- digits whose value exceeds the limit of the sign make the arm of `to_i64_t` fail with
+`Overflow` (either inside the u64 accumulator or at the checked conversion). -/
 theorem toI64Go_overflow (data : Bytes) (sign : Int) (start : Nat) (hd : allDigits data = true)
-    (hs : start ≤ U64_MAX) (h : decFrom data start > I64_MAX) :
+    (hs : start ≤ U64_MAX) (h : decFrom data start > signLimit sign) :
     requireEmpty (toI64Go data sign start) = .error .overflow := by
   unfold toI64Go requireEmpty
+  unfold signLimit at h
   rw [toU64T2_allDigits data start hd hs]
   by_cases h1 : decFrom data start ≤ U64_MAX
-  · simp [h1, h]
+  · by_cases hsg : sign < 0 <;> simp [hsg] at h <;> simp [h1, h, hsg]
   · simp [h1]
+
+theorem decFrom_append (a b : Bytes) (acc : Nat) : decFrom (a ++ b) acc = decFrom b (decFrom a acc) := by
+  induction a generalizing acc with
+  | nil => rfl
+  | cons x xs ih => simp [decFrom, ih]
+
+theorem allDigits_append (a b : Bytes) : allDigits (a ++ b) = true ↔ allDigits a = true ∧ allDigits b = true := by
+  simp [allDigits]
+
+/-- `left` is empty or starts with a non-digit -/
+def StopsAt (left : Bytes) : Prop := left = [] ∨ ∃ x xs, left = x :: xs ∧ isDigit x = false
+
+/-- general description of the accumulator loop: it consumes the longest digit prefix. -/
+theorem toU64T2_ok_iff (d : Bytes) (acc r : Nat) (left : Bytes) (hacc : acc ≤ U64_MAX) :
+    toU64T2 d acc = .ok (r, left) ↔
+      ∃ pre, d = pre ++ left ∧ allDigits pre = true ∧ r = decFrom pre acc ∧ r ≤ U64_MAX ∧ StopsAt left := by
+  induction d generalizing acc with
+  | nil =>
+    simp only [toU64T2, Except.ok.injEq, Prod.mk.injEq]
+    constructor
+    · rintro ⟨rfl, rfl⟩; exact ⟨[], by simp [allDigits, decFrom, hacc, StopsAt]⟩
+    · rintro ⟨pre, h, -, hr, -, -⟩
+      have : pre = [] ∧ left = [] := by simpa using h.symm
+      obtain ⟨rfl, rfl⟩ := this
+      simp [hr, decFrom]
+  | cons x xs ih =>
+    simp only [toU64T2]
+    by_cases hx : isDigit x = true
+    · simp only [hx, Bool.not_true, Bool.false_eq_true, if_false, overflowMulAdd]
+      by_cases h1 : acc * 10 > U64_MAX
+      · simp only [h1, if_true]
+        constructor
+        · intro h; cases h
+        · rintro ⟨pre, h, hd, hr, hle, hs⟩
+          exfalso
+          cases pre with
+          | nil =>
+            simp only [List.nil_append] at h; subst h
+            rcases hs with hs | ⟨y, ys, hs, hy⟩
+            · cases hs
+            · cases hs; simp [hx] at hy
+          | cons p ps =>
+            simp only [List.cons_append, List.cons.injEq] at h
+            obtain ⟨rfl, -⟩ := h
+            have := decFrom_ge ps (acc * 10 + digitVal x)
+            simp only [decFrom] at hr; omega
+      · by_cases h2 : acc * 10 + digitVal x > U64_MAX
+        · simp only [h1, h2, if_true, if_false]
+          constructor
+          · intro h; cases h
+          · rintro ⟨pre, h, hd, hr, hle, hs⟩
+            exfalso
+            cases pre with
+            | nil =>
+              simp only [List.nil_append] at h; subst h
+              rcases hs with hs | ⟨y, ys, hs, hy⟩
+              · cases hs
+              · cases hs; simp [hx] at hy
+            | cons p ps =>
+              simp only [List.cons_append, List.cons.injEq] at h
+              obtain ⟨rfl, -⟩ := h
+              have := decFrom_ge ps (acc * 10 + digitVal x)
+              simp only [decFrom] at hr; omega
+        · simp only [h1, h2, if_false]
+          rw [ih _ (by omega)]
+          constructor
+          · rintro ⟨pre, rfl, hd, hr, hle, hs⟩
+            exact ⟨x :: pre, rfl, by simp [allDigits_cons, hx, hd], by simpa [decFrom] using hr, hle, hs⟩
+          · rintro ⟨pre, h, hd, hr, hle, hs⟩
+            cases pre with
+            | nil =>
+              exfalso
+              simp only [List.nil_append] at h; subst h
+              rcases hs with hs | ⟨y, ys, hs, hy⟩
+              · cases hs
+              · cases hs; simp [hx] at hy
+            | cons p ps =>
+              simp only [List.cons_append, List.cons.injEq] at h
+              obtain ⟨rfl, rfl⟩ := h
+              rw [allDigits_cons] at hd
+              exact ⟨ps, rfl, hd.2, by simpa [decFrom] using hr, hle, hs⟩
+    · have hx' : isDigit x = false := by simpa using hx
+      simp only [hx', Bool.not_false, if_true, Except.ok.injEq, Prod.mk.injEq]
+      constructor
+      · rintro ⟨rfl, rfl⟩
+        exact ⟨[], rfl, by simp [allDigits], by simp [decFrom], hacc, Or.inr ⟨x, xs, rfl, hx'⟩⟩
+      · rintro ⟨pre, h, hd, hr, hle, hs⟩
+        cases pre with
+        | nil => simp only [List.nil_append] at h; subst h; simp [hr, decFrom]
+        | cons p ps =>
+          exfalso
+          simp only [List.cons_append, List.cons.injEq] at h
+          obtain ⟨rfl, -⟩ := h
+          rw [allDigits_cons] at hd
+          simp [hx'] at hd
+
+
+/-- value of an accepted integer: `val as f64` (an `i64` zero has no sign). -/
+def intVal (neg : Bool) (n : Nat) : Nat :=
+  if neg then (if n = 0 then 0 else signBit + u64ToF64 n) else u64ToF64 n
+
+/-- value of an accepted decimal with `k` fraction digits whose digits, taken as one integer,
+are `i`: `sign * ((i as f64) / 10^k)`, two roundings. -/
+def fracVal (neg : Bool) (i k : Nat) : Nat :=
+  if neg then signBit + rneBits (decodeMag (u64ToF64 i)) (10 ^ k)
+  else rneBits (decodeMag (u64ToF64 i)) (10 ^ k)
+
+theorem f64Int_ok (neg : Bool) (lead v : Nat) :
+    f64Int neg lead = .ok v ↔ lead ≤ F64_EXACT_MAX ∧ v = intVal neg lead := by
+  unfold f64Int intVal
+  cases neg
+  · by_cases h : lead > F64_EXACT_MAX
+    · simp [h]; omega
+    · simp [h]; constructor
+      · intro h'; exact ⟨by omega, h'.symm⟩
+      · intro h'; exact h'.2.symm
+  · by_cases h : lead > F64_EXACT_MAX
+    · have : ¬ lead ≤ F64_EXACT_MAX := by omega
+      by_cases h2 : lead > I64_MAX <;> simp [h, h2, this]
+    · have h2 : ¬ lead > I64_MAX := by simp only [F64_EXACT_MAX, I64_MAX] at *; omega
+      simp [h, h2]; constructor
+      · intro h'; exact ⟨by omega, h'.symm⟩
+      · intro h'; exact h'.2.symm
+
+theorem maxFrac : Tables.maxFractionDigits = 22 := rfl
+
+theorem f64Frac_ok (neg : Bool) (lead : Nat) (frac : Bytes) (v : Nat) (hl : lead ≤ U64_MAX) :
+    f64Frac neg lead frac = .ok v ↔
+      allDigits frac = true ∧ frac ≠ [] ∧ frac.length ≤ 22 ∧ decFrom frac lead ≤ U64_MAX ∧
+        v = fracVal neg (decFrom frac lead) frac.length := by
+  unfold f64Frac toU64T
+  cases h : toU64T2 frac lead with
+  | error e =>
+    refine ⟨fun h' => (by cases h'), ?_⟩
+    rintro ⟨hd, -, -, hle, -⟩
+    rw [toU64T2_allDigits frac lead hd hl] at h
+    simp [hle] at h
+  | ok p =>
+    obtain ⟨i, left2⟩ := p
+    cases left2 with
+    | cons x xs =>
+      have : (toU64T2 frac lead = .ok (i, [])) → False := by rw [h]; simp
+      by_cases hb : (x :: xs == frac) = true
+      · simp only [hb, if_true]
+        refine ⟨fun h' => (by cases h'), ?_⟩
+        rintro ⟨hd, -, -, hle, -⟩
+        rw [toU64T2_allDigits frac lead hd hl] at h
+        simp [hle] at h
+      · simp only [hb, Bool.false_eq_true, if_false, List.isEmpty_cons, Bool.not_false, if_true]
+        refine ⟨fun h' => (by cases h'), ?_⟩
+        rintro ⟨hd, -, -, hle, -⟩
+        rw [toU64T2_allDigits frac lead hd hl] at h
+        simp [hle] at h
+    | nil =>
+      rw [toU64T2_ok_nil _ _ _ hl] at h
+      obtain ⟨hd, hi, hle⟩ := h
+      subst hi
+      cases frac with
+      | nil => simp
+      | cons f fs =>
+        have hb : (([] : Bytes) == f :: fs) = false := by rfl
+        simp only [hb, Bool.false_eq_true, if_false, List.isEmpty_nil, Bool.not_true, maxFrac]
+        by_cases hk : (f :: fs).length > 22
+        · simp only [hk, if_true]
+          refine ⟨fun h' => (by cases h'), ?_⟩
+          rintro ⟨-, -, h22, -⟩; omega
+        · simp only [hk, if_false, Except.ok.injEq, hd, true_and, ne_eq, reduceCtorEq, not_false_eq_true, hle]
+          unfold fracVal
+          constructor
+          · intro h; exact ⟨by omega, h.symm⟩
+          · intro h; exact h.2.symm
+
+
+theorem f64Tail_ok (neg : Bool) (lead : Nat) (left : Bytes) (v : Nat) (hl : lead ≤ U64_MAX) :
+    f64Tail neg lead left = .ok v ↔
+      (left = [] ∧ lead ≤ F64_EXACT_MAX ∧ v = intVal neg lead) ∨
+      (∃ f, left = 46 :: f ∧ allDigits f = true ∧ f ≠ [] ∧ f.length ≤ 22 ∧ decFrom f lead ≤ U64_MAX ∧
+        v = fracVal neg (decFrom f lead) f.length) := by
+  cases left with
+  | nil => simp [f64Tail, f64Int_ok]
+  | cons l0 frac =>
+    by_cases h : l0 = 46
+    · subst h
+      simp [f64Tail, f64Frac_ok _ _ _ _ hl]
+    · have hb : (l0 == 46) = false := by simpa using h
+      simp [f64Tail, hb, h]
+
+/-- the body of `to_f64` (after the optional '-'), as a grammar. -/
+theorem f64Body_ok (neg : Bool) (c : UInt8) (data : Bytes) (v : Nat) :
+    f64Body neg (c :: data) c data = .ok v ↔
+      ∃ hd ip, IsF64Head hd ip ∧
+        ((c :: data = hd ∧ decVal ip ≤ F64_EXACT_MAX ∧ v = intVal neg (decVal ip)) ∨
+         (∃ f, c :: data = hd ++ 46 :: f ∧ allDigits f = true ∧ f ≠ [] ∧ f.length ≤ 22 ∧
+            decVal (ip ++ f) ≤ U64_MAX ∧ v = fracVal neg (decVal (ip ++ f)) f.length)) := by
+  have h0 : (0 : Nat) ≤ U64_MAX := by simp [U64_MAX]
+  unfold f64Body f64Head
+  by_cases hc : isDigit c = true
+  · -- digit
+    simp only [hc, if_true]
+    constructor
+    · intro h
+      cases hr : toU64T2 data (digitVal c) with
+      | error e => simp [hr] at h
+      | ok p =>
+        obtain ⟨lead, left⟩ := p
+        simp only [hr] at h
+        obtain ⟨pre, rfl, hd, hlead, hle, hs⟩ := (toU64T2_ok_iff _ _ _ _ (digitVal_le c)).1 hr
+        have hip : allDigits (c :: pre) = true := by simp [allDigits_cons, hc, hd]
+        have hv : lead = decVal (c :: pre) := by rw [decVal_cons]; exact hlead
+        rcases (f64Tail_ok neg lead left v hle).1 h with ⟨rfl, h1, h2⟩ | ⟨f, rfl, h1, h2, h3, h4, h5⟩
+        · exact ⟨c :: pre, c :: pre, ⟨hip, Or.inl rfl⟩, Or.inl ⟨by simp, hv ▸ h1, hv ▸ h2⟩⟩
+        · refine ⟨c :: pre, c :: pre, ⟨hip, Or.inl rfl⟩, Or.inr ⟨f, by simp, h1, h2, h3, ?_, ?_⟩⟩
+          · rw [decVal, decFrom_append, ← decVal, ← hv]; exact h4
+          · rw [decVal, decFrom_append, ← decVal, ← hv]; exact h5
+    · rintro ⟨hd, ip, ⟨hip, hhd⟩, h⟩
+      -- the head must be the bare digits `c :: pre`
+      have key : ∀ rest, c :: data = hd ++ rest → (rest = [] ∨ ∃ f, rest = 46 :: f) →
+          ∃ pre, ip = c :: pre ∧ hd = ip ∧ data = pre ++ rest := by
+        intro rest hr hrest
+        rcases hhd with rfl | rfl
+        · cases hd with
+          | nil =>
+            exfalso
+            rcases hrest with rfl | ⟨f, rfl⟩
+            · simp at hr
+            · simp only [List.nil_append, List.cons.injEq] at hr
+              rw [hr.1] at hc; revert hc; decide
+          | cons p ps =>
+            simp only [List.cons_append, List.cons.injEq] at hr
+            obtain ⟨rfl, rfl⟩ := hr
+            exact ⟨ps, rfl, rfl, rfl⟩
+        · exfalso
+          simp only [List.cons_append, List.cons.injEq] at hr
+          rw [hr.1] at hc; simp [not_isDigit_43] at hc
+      rcases h with ⟨h1, h2, h3⟩ | ⟨f, h1, h2, h3, h4, h5, h6⟩
+      · obtain ⟨pre, rfl, rfl, hdata⟩ := key [] (by simpa using h1) (Or.inl rfl)
+        simp only [List.append_nil] at hdata; subst hdata
+        rw [allDigits_cons] at hip
+        have hr : toU64T2 data (digitVal c) = .ok (decVal (c :: data), []) := by
+          rw [toU64T2_ok_nil _ _ _ (digitVal_le c)]
+          exact ⟨hip.2, decVal_cons c data, by simp only [F64_EXACT_MAX, U64_MAX] at *; omega⟩
+        simp only [hr]
+        exact (f64Tail_ok neg _ [] v (by simp only [F64_EXACT_MAX, U64_MAX] at *; omega)).2 (Or.inl ⟨rfl, h2, h3⟩)
+      · obtain ⟨pre, rfl, rfl, hdata⟩ := key (46 :: f) h1 (Or.inr ⟨f, rfl⟩)
+        subst hdata
+        rw [allDigits_cons] at hip
+        have hge := decFrom_ge f (decVal (c :: pre))
+        have hdv : decVal ((c :: pre) ++ f) = decFrom f (decVal (c :: pre)) := by
+          rw [decVal, decFrom_append, ← decVal]
+        have hr : toU64T2 (pre ++ 46 :: f) (digitVal c) = .ok (decVal (c :: pre), 46 :: f) := by
+          rw [toU64T2_ok_iff _ _ _ _ (digitVal_le c)]
+          exact ⟨pre, rfl, hip.2, decVal_cons c pre, by omega, Or.inr ⟨46, f, rfl, by decide⟩⟩
+        simp only [hr]
+        exact (f64Tail_ok neg _ _ v (by omega)).2 (Or.inr ⟨f, rfl, h2, h3, h4, hdv ▸ h5, hdv ▸ h6⟩)
+  · have hc' : isDigit c = false := by simpa using hc
+    simp only [hc, Bool.false_eq_true, if_false]
+    -- where the first byte of `hd ++ rest` can come from when it is not a digit
+    have key : ∀ hd ip rest, IsF64Head hd ip → c :: data = hd ++ rest → (rest = [] ∨ ∃ f, rest = 46 :: f) →
+        (c = 46 ∧ hd = [] ∧ ip = [] ∧ rest = c :: data) ∨ (c = 43 ∧ hd = 43 :: ip ∧ data = ip ++ rest) := by
+      rintro hd ip rest ⟨hip, hhd⟩ hr hrest
+      rcases hhd with rfl | rfl
+      · cases hd with
+        | nil =>
+          rcases hrest with rfl | ⟨f, rfl⟩
+          · simp at hr
+          · simp only [List.nil_append, List.cons.injEq] at hr
+            exact Or.inl ⟨hr.1, rfl, rfl, by rw [hr.1, hr.2]⟩
+        | cons p ps =>
+          exfalso
+          simp only [List.cons_append, List.cons.injEq] at hr
+          rw [allDigits_cons] at hip
+          rw [← hr.1] at hip; simp [hc'] at hip
+      · simp only [List.cons_append, List.cons.injEq] at hr
+        exact Or.inr ⟨hr.1, rfl, hr.2⟩
+    by_cases h46 : c = 46
+    · subst h46
+      simp only [beq_self_eq_true, if_true]
+      rw [f64Tail_ok _ _ _ _ h0]
+      constructor
+      · rintro (⟨h, -⟩ | ⟨f, h, h1, h2, h3, h4, h5⟩)
+        · cases h
+        · simp only [List.cons.injEq, true_and] at h; subst h
+          exact ⟨[], [], ⟨by decide, Or.inl rfl⟩, Or.inr ⟨data, rfl, h1, h2, h3, by simpa [decVal] using h4, by simpa [decVal] using h5⟩⟩
+      · rintro ⟨hd, ip, hhead, h⟩
+        rcases h with ⟨h1, h2, h3⟩ | ⟨f, h1, h2, h3, h4, h5, h6⟩
+        · rcases key hd ip [] hhead (by simpa using h1) (Or.inl rfl) with ⟨-, -, -, h⟩ | ⟨h, -⟩
+          · cases h
+          · exact absurd h (by decide)
+        · rcases key hd ip _ hhead h1 (Or.inr ⟨f, rfl⟩) with ⟨-, rfl, rfl, h⟩ | ⟨h, -⟩
+          · simp only [List.cons.injEq, true_and] at h; subst h
+            exact Or.inr ⟨f, rfl, h2, h3, h4, by simpa [decVal] using h5, by simpa [decVal] using h6⟩
+          · exact absurd h (by decide)
+    · have hb46 : (c == 46) = false := by simpa using h46
+      simp only [hb46, Bool.false_eq_true, if_false]
+      by_cases h43 : c = 43
+      · subst h43
+        simp only [beq_self_eq_true, if_true]
+        constructor
+        · intro h
+          cases hr : toU64T2 data 0 with
+          | error e => simp [hr] at h
+          | ok p =>
+            obtain ⟨lead, left⟩ := p
+            simp only [hr] at h
+            obtain ⟨pre, rfl, hd, hlead, hle, hs⟩ := (toU64T2_ok_iff _ _ _ _ h0).1 hr
+            have hv : lead = decVal pre := hlead
+            rcases (f64Tail_ok neg lead left v hle).1 h with ⟨rfl, h1, h2⟩ | ⟨f, rfl, h1, h2, h3, h4, h5⟩
+            · exact ⟨43 :: pre, pre, ⟨hd, Or.inr rfl⟩, Or.inl ⟨by simp, hv ▸ h1, hv ▸ h2⟩⟩
+            · refine ⟨43 :: pre, pre, ⟨hd, Or.inr rfl⟩, Or.inr ⟨f, by simp, h1, h2, h3, ?_, ?_⟩⟩
+              · rw [decVal, decFrom_append, ← decVal, ← hv]; exact h4
+              · rw [decVal, decFrom_append, ← decVal, ← hv]; exact h5
+        · rintro ⟨hd, ip, hhead, h⟩
+          have hip := hhead.1
+          rcases h with ⟨h1, h2, h3⟩ | ⟨f, h1, h2, h3, h4, h5, h6⟩
+          · rcases key hd ip [] hhead (by simpa using h1) (Or.inl rfl) with ⟨h, -⟩ | ⟨-, -, hdata⟩
+            · exact absurd h (by decide)
+            · simp only [List.append_nil] at hdata; subst hdata
+              have hr : toU64T2 data 0 = .ok (decVal data, []) := by
+                rw [toU64T2_ok_nil _ _ _ h0]
+                exact ⟨hip, rfl, by simp only [F64_EXACT_MAX, U64_MAX] at *; omega⟩
+              simp only [hr]
+              exact (f64Tail_ok neg _ [] v (by simp only [F64_EXACT_MAX, U64_MAX] at *; omega)).2 (Or.inl ⟨rfl, h2, h3⟩)
+          · rcases key hd ip _ hhead h1 (Or.inr ⟨f, rfl⟩) with ⟨h, -⟩ | ⟨-, -, hdata⟩
+            · exact absurd h (by decide)
+            · subst hdata
+              have hge := decFrom_ge f (decVal ip)
+              have hdv : decVal (ip ++ f) = decFrom f (decVal ip) := by
+                rw [decVal, decFrom_append, ← decVal]
+              have hr : toU64T2 (ip ++ 46 :: f) 0 = .ok (decVal ip, 46 :: f) := by
+                rw [toU64T2_ok_iff _ _ _ _ h0]
+                exact ⟨ip, rfl, hip, rfl, by omega, Or.inr ⟨46, f, rfl, by decide⟩⟩
+              simp only [hr]
+              exact (f64Tail_ok neg _ _ v (by omega)).2 (Or.inr ⟨f, rfl, h2, h3, h4, hdv ▸ h5, hdv ▸ h6⟩)
+      · have hb43 : (c == 43) = false := by simpa using h43
+        simp only [hb43, Bool.false_eq_true, if_false]
+        constructor
+        · intro h; cases h
+        · rintro ⟨hd, ip, hhead, h⟩
+          exfalso
+          rcases h with ⟨h1, h2, h3⟩ | ⟨f, h1, h2, h3, h4, h5, h6⟩
+          · rcases key hd ip [] hhead (by simpa using h1) (Or.inl rfl) with ⟨h, -⟩ | ⟨h, -⟩
+            · exact h46 h
+            · exact h43 h
+          · rcases key hd ip _ hhead h1 (Or.inr ⟨f, rfl⟩) with ⟨h, -⟩ | ⟨h, -⟩
+            · exact h46 h
+            · exact h43 h
+
+
+/-- the binary64 bit pattern `to_f64` returns for an accepted string. -/
+def f64Value (neg : Bool) (ip : Bytes) (fp : Option Bytes) : Nat :=
+  match fp with
+  | none => intVal neg (decVal ip)
+  | some f => fracVal neg (decVal (ip ++ f)) f.length
+
+/-- an accepted body (head, optionally followed by `.` and digits) never starts with `-`. -/
+theorem head_first_ne_45 (hd ip rest : Bytes) (x : UInt8) (xs : Bytes) (h : IsF64Head hd ip)
+    (hrest : (rest = [] ∧ hd ≠ []) ∨ ∃ f, rest = 46 :: f) (e : hd ++ rest = x :: xs) : x ≠ 45 := by
+  obtain ⟨hip, hhd⟩ := h
+  rcases hhd with rfl | rfl
+  · cases hd with
+    | nil =>
+      rcases hrest with ⟨-, h⟩ | ⟨f, rfl⟩
+      · exact absurd rfl h
+      · simp only [List.nil_append, List.cons.injEq] at e; rw [← e.1]; decide
+    | cons p ps =>
+      simp only [List.cons_append, List.cons.injEq] at e
+      rw [allDigits_cons] at hip
+      rintro rfl
+      rw [e.1] at hip; simp [not_isDigit_45] at hip
+  · simp only [List.cons_append, List.cons.injEq] at e; rw [← e.1]; decide
+
+theorem toF64_ok_iff (s : Bytes) (v : Nat) :
+    toF64 s = .ok v ↔ ∃ neg ip fp, F64Accepts s neg ip fp ∧ v = f64Value neg ip fp := by
+  -- repackaging between `f64Body_ok` and `F64Accepts`
+  have pack : ∀ (neg : Bool) (body : Bytes),
+      (∃ hd ip, IsF64Head hd ip ∧
+        ((body = hd ∧ decVal ip ≤ F64_EXACT_MAX ∧ v = intVal neg (decVal ip)) ∨
+         (∃ f, body = hd ++ 46 :: f ∧ allDigits f = true ∧ f ≠ [] ∧ f.length ≤ 22 ∧
+            decVal (ip ++ f) ≤ U64_MAX ∧ v = fracVal neg (decVal (ip ++ f)) f.length))) →
+      body ≠ [] →
+      ∃ ip fp, F64Accepts ((if neg then [45] else []) ++ body) neg ip fp ∧ v = f64Value neg ip fp := by
+    rintro neg body ⟨hd, ip, hh, h⟩ hne
+    rcases h with ⟨rfl, h2, h3⟩ | ⟨f, rfl, h2, h3, h4, h5, h6⟩
+    · exact ⟨ip, none, ⟨body, hh, rfl, hne, h2⟩, h3⟩
+    · exact ⟨ip, some f, ⟨hd, hh, rfl, h2, h3, h4, h5⟩, h6⟩
+  have unpack : ∀ (neg : Bool) (body : Bytes) ip fp,
+      F64Accepts ((if neg then [45] else []) ++ body) neg ip fp → v = f64Value neg ip fp →
+      (∃ hd ip, IsF64Head hd ip ∧
+        ((body = hd ∧ decVal ip ≤ F64_EXACT_MAX ∧ v = intVal neg (decVal ip)) ∨
+         (∃ f, body = hd ++ 46 :: f ∧ allDigits f = true ∧ f ≠ [] ∧ f.length ≤ 22 ∧
+            decVal (ip ++ f) ≤ U64_MAX ∧ v = fracVal neg (decVal (ip ++ f)) f.length))) := by
+    rintro neg body ip fp ⟨hd, hh, h⟩ hv
+    cases fp with
+    | none =>
+      obtain ⟨h1, h2, h3⟩ := h
+      exact ⟨hd, ip, hh, Or.inl ⟨List.append_cancel_left h1, h3, hv⟩⟩
+    | some f =>
+      obtain ⟨h1, h2, h3, h4, h5⟩ := h
+      exact ⟨hd, ip, hh, Or.inr ⟨f, List.append_cancel_left h1, h2, h3, h4, h5, hv⟩⟩
+  -- the first byte of an accepted non-negative string is not '-'
+  have first : ∀ (x : UInt8) (xs : Bytes) ip fp, F64Accepts (x :: xs) false ip fp → x ≠ 45 := by
+    rintro x xs ip fp ⟨hd, hh, h⟩
+    cases fp with
+    | none =>
+      obtain ⟨h1, h2, -⟩ := h
+      exact head_first_ne_45 hd ip [] x xs hh (Or.inl ⟨rfl, h2⟩) (by simpa using h1.symm)
+    | some f =>
+      obtain ⟨h1, -⟩ := h
+      exact head_first_ne_45 hd ip (46 :: f) x xs hh (Or.inr ⟨f, rfl⟩) (by simpa using h1.symm)
+  have nonempty : ∀ neg ip fp, ¬ F64Accepts [] neg ip fp := by
+    rintro neg ip fp ⟨hd, hh, h⟩
+    cases fp with
+    | none =>
+      obtain ⟨h1, h2, -⟩ := h
+      cases neg
+      · exact h2 (by simpa using h1.symm)
+      · simp at h1
+    | some f => obtain ⟨h1, -⟩ := h; cases neg <;> simp at h1
+  cases s with
+  | nil =>
+    simp only [toF64]
+    constructor
+    · intro h; cases h
+    · rintro ⟨neg, ip, fp, h, -⟩; exact absurd h (nonempty neg ip fp)
+  | cons c0 data0 =>
+    simp only [toF64]
+    by_cases h45 : c0 = 45
+    · subst h45
+      simp only [beq_self_eq_true, if_true]
+      cases data0 with
+      | nil =>
+        constructor
+        · intro h; cases h
+        · rintro ⟨neg, ip, fp, h, -⟩
+          exfalso
+          cases neg with
+          | false => exact first 45 [] ip fp h rfl
+          | true =>
+            obtain ⟨hd, -, hx⟩ := h
+            cases fp with
+            | none => obtain ⟨h1, h2, -⟩ := hx; simp at h1; exact h2 h1
+            | some f => obtain ⟨h1, -⟩ := hx; simp at h1
+      | cons c1 data1 =>
+        rw [f64Body_ok]
+        constructor
+        · intro h
+          obtain ⟨ip, fp, ha, hv⟩ := pack true (c1 :: data1) h (by simp)
+          exact ⟨true, ip, fp, by simpa using ha, hv⟩
+        · rintro ⟨neg, ip, fp, ha, hv⟩
+          cases neg with
+          | false => exact absurd rfl (first 45 _ ip fp ha)
+          | true => exact unpack true (c1 :: data1) ip fp (by simpa using ha) hv
+    · have hb : (c0 == 45) = false := by simpa using h45
+      simp only [hb, Bool.false_eq_true, if_false]
+      rw [f64Body_ok]
+      constructor
+      · intro h
+        obtain ⟨ip, fp, ha, hv⟩ := pack false (c0 :: data0) h (by simp)
+        exact ⟨false, ip, fp, by simpa using ha, hv⟩
+      · rintro ⟨neg, ip, fp, ha, hv⟩
+        cases neg with
+        | false => exact unpack false (c0 :: data0) ip fp (by simpa using ha) hv
+        | true =>
+          exfalso
+          obtain ⟨hd, -, hx⟩ := ha
+          cases fp with
+          | none => obtain ⟨h1, -⟩ := hx; simp at h1; exact h45 h1.1
+          | some f => obtain ⟨h1, -⟩ := hx; simp at h1; exact h45 h1.1
+
+
+theorem bitLen_bounds (n : Nat) (h : n ≠ 0) : 2 ^ (bitLen n - 1) ≤ n ∧ n < 2 ^ bitLen n := by
+  simp only [bitLen, h, if_false, Nat.add_sub_cancel]
+  exact ⟨Nat.log2_self_le h, Nat.lt_log2_self⟩
+
+theorem bitLen_one : bitLen 1 = 1 := by decide
+
+theorem scaleQ_nonpos (n k : Nat) : scaleQ n 1 (-(k : Int)) = (n * 2 ^ k, 0, 1) := by
+  by_cases hk : k = 0
+  · subst hk; simp [scaleQ, Nat.mod_one]
+  · have h1 : ¬ (-(k : Int) ≥ 0) := by omega
+    simp [scaleQ, Nat.mod_one]; omega
+
+/-- `n as f64` for `0 < n < 2^53`, with `k = 53 - bitLen n` (the left shift that normalises
+`n`): exponent field `1075 - k`, mantissa `n * 2^k` without its leading bit. -/
+theorem u64ToF64_small (n : Nat) (h0 : n ≠ 0) (h : n < 2 ^ 53) :
+    ∃ k, k ≤ 52 ∧ 2 ^ 52 ≤ n * 2 ^ k ∧ n * 2 ^ k < 2 ^ 53 ∧
+      u64ToF64 n = (1075 - k) * 2 ^ 52 + (n * 2 ^ k - 2 ^ 52) := by
+  obtain ⟨hlo, hhi⟩ := bitLen_bounds n h0
+  have hL1 : 1 ≤ bitLen n := by simp [bitLen, h0]
+  have hL53 : bitLen n ≤ 53 := by
+    by_cases hc : bitLen n ≤ 53
+    · exact hc
+    · exfalso
+      have : 2 ^ 53 ≤ 2 ^ (bitLen n - 1) := Nat.pow_le_pow_right (by decide) (by omega)
+      omega
+  have hq1 : 2 ^ 52 ≤ n * 2 ^ (53 - bitLen n) := by
+    have : 2 ^ 52 = 2 ^ (bitLen n - 1) * 2 ^ (53 - bitLen n) := by
+      rw [← Nat.pow_add]; congr 1; omega
+    rw [this]; exact Nat.mul_le_mul_right _ hlo
+  have hq2 : n * 2 ^ (53 - bitLen n) < 2 ^ 53 := by
+    have : 2 ^ 53 = 2 ^ (bitLen n) * 2 ^ (53 - bitLen n) := by
+      rw [← Nat.pow_add]; congr 1; omega
+    rw [this]; exact Nat.mul_lt_mul_of_pos_right hhi (Nat.two_pow_pos _)
+  refine ⟨53 - bitLen n, by omega, hq1, hq2, ?_⟩
+  generalize hkdef : 53 - bitLen n = k at *
+  have hbl : bitLen n = 53 - k := by omega
+  have hk52 : k ≤ 52 := by omega
+  unfold u64ToF64 rneBits
+  have hn : ¬ (n = 0 ∨ 1 = 0) := by simp [h0]
+  simp only [hn, if_false, bitLen_one, hbl]
+  have he0 : (((53 - k : Nat) : Int) - ((1 : Nat) : Int) - 53) = -((k + 1 : Nat) : Int) := by omega
+  rw [he0, scaleQ_nonpos n (k + 1)]
+  have h2q : n * 2 ^ (k + 1) = 2 * (n * 2 ^ k) := by rw [Nat.pow_succ]; ac_rfl
+  generalize hq : n * 2 ^ k = q at *
+  have hne : normExp (n * 2 ^ (k + 1), 0, 1).fst (-((k + 1 : Nat) : Int)) = -(k : Int) := by
+    simp only [normExp, h2q]
+    have : 2 * q ≥ 2 ^ 53 := by omega
+    simp only [this, if_true]; omega
+  rw [hne]
+  have hcl : clampExp (-(k : Int)) = -(k : Int) := by
+    simp only [clampExp]; have : ¬ (-(k : Int) < -1074) := by omega
+    simp [this]
+  rw [hcl, scaleQ_nonpos n k, hq]
+  have hr : roundQ q 0 1 = q := by simp [roundQ]
+  simp only [hr]
+  unfold packBits
+  have c1 : ¬ q ≥ 2 ^ 53 := by omega
+  have c2 : ¬ q < 2 ^ 52 := by omega
+  have c3 : ¬ (-(k : Int) + 1075 ≥ 2047) := by omega
+  have c4 : (-(k : Int) + 1075).toNat = 1075 - k := by omega
+  simp only [c1, c2, c3, c4, if_false]
+
+/-- binary64 holds every integer below `2^53` exactly: converting and decoding is the identity. -/
+theorem u64ToF64_exact (n : Nat) (h : n < 2 ^ 53) : decodeMag (u64ToF64 n) = n := by
+  by_cases h0 : n = 0
+  · subst h0; decide
+  · obtain ⟨k, hk, hq1, hq2, he⟩ := u64ToF64_small n h0 h
+    rw [he]
+    have hP : 0 < 2 ^ k := Nat.two_pow_pos k
+    generalize hq : n * 2 ^ k = q at *
+    unfold decodeMag
+    have hfi : (1075 - k) * 2 ^ 52 + (q - 2 ^ 52) ≠ 0 := by omega
+    have hbe : ((1075 - k) * 2 ^ 52 + (q - 2 ^ 52)) / 2 ^ 52 = 1075 - k := by omega
+    have hm : ((1075 - k) * 2 ^ 52 + (q - 2 ^ 52)) % 2 ^ 52 + 2 ^ 52 = q := by omega
+    simp only [hfi, if_false, hbe, hm]
+    by_cases hk0 : k = 0
+    · subst hk0; simp at hq ⊢; omega
+    · have : ¬ (1075 - k ≥ 1075) := by omega
+      simp only [this, if_false]
+      have : 1075 - (1075 - k) = k := by omega
+      rw [this, ← hq]
+      exact Nat.mul_div_cancel _ hP
+
+
+/-- sign applied to a magnitude bit pattern -/
+def signed (neg : Bool) (q : Nat) : Nat := if neg then signBit + q else q
+
+/-- exponent field of a binary64 bit pattern -/
+def expField (v : Nat) : Nat := (v / 2 ^ 52) % 2048
+
+theorem expField_u64ToF64_small (n : Nat) (h : n < 2 ^ 53) :
+    expField (u64ToF64 n) ≤ 1075 ∧ expField (signBit + u64ToF64 n) ≤ 1075 := by
+  by_cases h0 : n = 0
+  · subst h0; decide
+  · obtain ⟨k, hk, hq1, hq2, he⟩ := u64ToF64_small n h0 h
+    rw [he]
+    generalize n * 2 ^ k = q at *
+    simp only [expField, signBit]
+    omega
+
+theorem accepts_some_has_dot (s : Bytes) (neg : Bool) (ip f : Bytes) (h : F64Accepts s neg ip (some f)) :
+    46 ∈ s := by
+  obtain ⟨hd, -, h1, -⟩ := h
+  rw [h1]; simp
+
+theorem f64Int_refuse (neg : Bool) (n : Nat) (h : n > F64_EXACT_MAX) :
+    f64Int neg n = .error .precisionLoss ∨ f64Int neg n = .error .overflow := by
+  unfold f64Int
+  cases neg
+  · simp [h]
+  · by_cases h2 : n > I64_MAX <;> simp [h, h2]
+
+theorem f64Body_int_refuse (neg : Bool) (c : UInt8) (data ip : Bytes) (hh : IsF64Head (c :: data) ip)
+    (hbig : decVal ip > F64_EXACT_MAX) :
+    f64Body neg (c :: data) c data = .error .precisionLoss ∨
+    f64Body neg (c :: data) c data = .error .overflow := by
+  obtain ⟨hip, h | h⟩ := hh
+  · subst h
+    rw [allDigits_cons] at hip
+    unfold f64Body f64Head
+    simp only [hip.1, if_true, toU64T2_allDigits data (digitVal c) hip.2 (digitVal_le c), ← decVal_cons]
+    by_cases hle : decVal (c :: data) ≤ U64_MAX
+    · simp only [hle, if_true, f64Tail]; exact f64Int_refuse neg _ hbig
+    · simp [hle]
+  · simp only [List.cons.injEq] at h
+    obtain ⟨rfl, rfl⟩ := h
+    unfold f64Body f64Head
+    simp only [not_isDigit_43, Bool.false_eq_true, if_false, show ((43 : UInt8) == 46) = false by decide,
+      beq_self_eq_true, if_true, toU64T2_allDigits data 0 hip (by simp [U64_MAX])]
+    by_cases hle : decFrom data 0 ≤ U64_MAX
+    · simp only [hle, if_true, f64Tail]; exact f64Int_refuse neg _ hbig
+    · simp [hle]
+
+theorem toF64_big_integer_refused (neg : Bool) (hd ip : Bytes) (hh : IsF64Head hd ip) (hne : hd ≠ [])
+    (hbig : decVal ip > F64_EXACT_MAX) :
+    toF64 ((if neg then [45] else []) ++ hd) = .error .precisionLoss ∨
+    toF64 ((if neg then [45] else []) ++ hd) = .error .overflow := by
+  cases hd with
+  | nil => exact absurd rfl hne
+  | cons c data =>
+    cases neg with
+    | true =>
+      simp only [if_true, List.singleton_append, toF64, beq_self_eq_true]
+      exact f64Body_int_refuse true c data ip hh hbig
+    | false =>
+      have hc : (c == 45) = false := by
+        obtain ⟨hip, h | h⟩ := hh
+        · subst h; rw [allDigits_cons] at hip
+          have : c ≠ 45 := by rintro rfl; simp [not_isDigit_45] at hip
+          simpa using this
+        · simp only [List.cons.injEq] at h; rw [h.1]; decide
+      simp only [Bool.false_eq_true, if_false, List.nil_append, toF64, hc]
+      exact f64Body_int_refuse false c data ip hh hbig
+
+
+/-- raising the exponent by one halves the scaled quotient (floor of floor). -/
+theorem scaleQ_succ (num den : Nat) (e : Int) :
+    (scaleQ num den (e + 1)).1 = (scaleQ num den e).1 / 2 := by
+  unfold scaleQ
+  by_cases he : e ≥ 0
+  · have he1 : e + 1 ≥ 0 := by omega
+    have ht : (e + 1).toNat = e.toNat + 1 := by omega
+    simp only [he, he1, if_true, ht, Nat.pow_succ, ← Nat.mul_assoc]
+    rw [Nat.div_div_eq_div_mul]
+  · by_cases he1 : e + 1 ≥ 0
+    · have e_eq : e = -1 := by omega
+      subst e_eq
+      simp only [he, if_false]
+      simp
+      rw [Nat.mul_comm num 2, Nat.div_div_eq_div_mul, Nat.mul_comm den 2, Nat.mul_div_mul_left _ _ (by decide : 0 < 2)]
+    · have ht : (-e).toNat = (-(e + 1)).toNat + 1 := by omega
+      simp only [he, he1, if_false, ht, Nat.pow_succ, ← Nat.mul_assoc]
+      rw [Nat.div_div_eq_div_mul, Nat.mul_comm den 2, Nat.mul_comm _ 2, Nat.mul_div_mul_left _ _ (by decide : 0 < 2)]
+
+/-- the first-guess quotient is below `2^54`. -/
+theorem scaleQ_e0_lt (num den : Nat) (hn : num ≠ 0) (hd : den ≠ 0) :
+    (scaleQ num den ((bitLen num : Int) - (bitLen den : Int) - 53)).1 < 2 ^ 54 := by
+  obtain ⟨-, hnum⟩ := bitLen_bounds num hn
+  obtain ⟨hden, -⟩ := bitLen_bounds den hd
+  have hLd : 1 ≤ bitLen den := by simp [bitLen, hd]
+  have hdpos : 0 < den := Nat.pos_of_ne_zero hd
+  unfold scaleQ
+  by_cases he : (bitLen num : Int) - (bitLen den : Int) - 53 ≥ 0
+  · simp only [he, if_true]
+    generalize ht : ((bitLen num : Int) - (bitLen den : Int) - 53).toNat = t
+    have hLn : bitLen num = bitLen den + 53 + t := by omega
+    rw [Nat.div_lt_iff_lt_mul (Nat.mul_pos hdpos (Nat.two_pow_pos t))]
+    calc num < 2 ^ bitLen num := hnum
+      _ = 2 ^ 54 * (2 ^ (bitLen den - 1) * 2 ^ t) := by
+          rw [← Nat.pow_add, ← Nat.pow_add]; congr 1; omega
+      _ ≤ 2 ^ 54 * (den * 2 ^ t) := Nat.mul_le_mul_left _ (Nat.mul_le_mul_right _ hden)
+  · simp only [he, if_false]
+    generalize ht : (-((bitLen num : Int) - (bitLen den : Int) - 53)).toNat = t
+    have hLn : bitLen num + t = bitLen den + 53 := by omega
+    rw [Nat.div_lt_iff_lt_mul hdpos]
+    calc num * 2 ^ t < 2 ^ bitLen num * 2 ^ t := Nat.mul_lt_mul_of_pos_right hnum (Nat.two_pow_pos t)
+      _ = 2 ^ 54 * 2 ^ (bitLen den - 1) := by
+          rw [← Nat.pow_add, ← Nat.pow_add]; congr 1; omega
+      _ ≤ 2 ^ 54 * den := Nat.mul_le_mul_left _ hden
+
+
+theorem roundQ_le (q r d : Nat) : roundQ q r d ≤ q + 1 := by
+  unfold roundQ; split <;> (try split) <;> (try split) <;> omega
+
+theorem packBits_lt (q : Nat) (e : Int) (K : Nat) (hq : q ≤ 2 ^ 53) (hK : e + 1 + 1075 ≤ K) (hK2 : K ≤ 2046) :
+    packBits q e < (K + 1) * 2 ^ 52 := by
+  unfold packBits
+  by_cases h1 : q ≥ 2 ^ 53
+  · have hq' : q / 2 = 2 ^ 52 := by omega
+    simp only [h1, if_true, hq']
+    have c2 : ¬ (2 ^ 52 < 2 ^ 52) := by omega
+    have c3 : ¬ (e + 1 + 1075 ≥ 2047) := by omega
+    simp only [c2, c3, if_false]
+    have : (e + 1 + 1075).toNat ≤ K := by omega
+    omega
+  · simp only [h1, if_false]
+    by_cases h2 : q < 2 ^ 52
+    · simp only [h2, if_true]; omega
+    · have c3 : ¬ (e + 1075 ≥ 2047) := by omega
+      simp only [h2, c3, if_false]
+      have : (e + 1075).toNat ≤ K := by omega
+      omega
+
+/-- after `normExp` the quotient fits 53 bits, and the exponent moved by at most one. -/
+theorem normExp_spec (num den : Nat) (e0 : Int) (h : (scaleQ num den e0).1 < 2 ^ 54) :
+    (scaleQ num den (normExp (scaleQ num den e0).1 e0)).1 < 2 ^ 53 ∧
+    normExp (scaleQ num den e0).1 e0 ≤ e0 + 1 ∧ e0 - 1 ≤ normExp (scaleQ num den e0).1 e0 := by
+  unfold normExp
+  by_cases h1 : (scaleQ num den e0).1 ≥ 2 ^ 53
+  · simp only [h1, if_true]
+    refine ⟨?_, by omega, by omega⟩
+    rw [scaleQ_succ]; omega
+  · simp only [h1, if_false]
+    by_cases h2 : (scaleQ num den e0).1 < 2 ^ 52
+    · simp only [h2, if_true]
+      refine ⟨?_, by omega, by omega⟩
+      have := scaleQ_succ num den (e0 - 1)
+      rw [show e0 - 1 + 1 = e0 by omega] at this
+      omega
+    · simp only [h2, if_false]
+      exact ⟨by omega, by omega, by omega⟩
+
+/-- **bound on the exponent field of a rounded quotient**: with `K` at least the first-guess
+exponent plus 2 (biased), and `K ≤ 2046`, the bit pattern is below `(K+1)·2^52`; in
+particular it is finite. -/
+theorem rneBits_lt (num den K : Nat) (hd : den ≠ 0) (hLd : bitLen den ≤ 1000)
+    (hK : (bitLen num : Int) - (bitLen den : Int) - 53 + 2 + 1075 ≤ K) (hK2 : K ≤ 2046) :
+    rneBits num den < (K + 1) * 2 ^ 52 := by
+  by_cases hn : num = 0
+  · subst hn; simp [rneBits]
+  · unfold rneBits
+    have hnd : ¬ (num = 0 ∨ den = 0) := by simp [hn, hd]
+    simp only [hnd, if_false]
+    have hLn : 1 ≤ bitLen num := by simp [bitLen, hn]
+    generalize he0 : (bitLen num : Int) - (bitLen den : Int) - 53 = e0 at *
+    obtain ⟨hq, hup, hlo⟩ := normExp_spec num den e0 (he0 ▸ scaleQ_e0_lt num den hn hd)
+    generalize normExp (scaleQ num den e0).1 e0 = e1 at *
+    have hcl : clampExp e1 = e1 := by
+      unfold clampExp; have : ¬ e1 < -1074 := by omega
+      simp [this]
+    rw [hcl]
+    have hr := roundQ_le (scaleQ num den e1).1 (scaleQ num den e1).2.1 (scaleQ num den e1).2.2
+    exact packBits_lt _ e1 K (by omega) (by omega) hK2
+
+
+theorem bitLen_le (n m : Nat) (h : n < 2 ^ m) : bitLen n ≤ m := by
+  by_cases hn : n = 0
+  · simp [bitLen, hn]
+  · obtain ⟨hlo, -⟩ := bitLen_bounds n hn
+    by_cases hc : bitLen n ≤ m
+    · exact hc
+    · exfalso
+      have : 2 ^ m ≤ 2 ^ (bitLen n - 1) := Nat.pow_le_pow_right (by decide) (by omega)
+      omega
+
+theorem decodeMag_lt (fi : Nat) (h : fi < 1088 * 2 ^ 52) : decodeMag fi < 2 ^ 65 := by
+  unfold decodeMag
+  by_cases h0 : fi = 0
+  · simp [h0]
+  · simp only [h0, if_false]
+    have hbe : fi / 2 ^ 52 ≤ 1087 := by omega
+    have hm : fi % 2 ^ 52 + 2 ^ 52 < 2 ^ 53 := by omega
+    by_cases hge : fi / 2 ^ 52 ≥ 1075
+    · simp only [hge, if_true]
+      have hp : 2 ^ (fi / 2 ^ 52 - 1075) ≤ 2 ^ 12 := Nat.pow_le_pow_right (by decide) (by omega)
+      calc (fi % 2 ^ 52 + 2 ^ 52) * 2 ^ (fi / 2 ^ 52 - 1075)
+          ≤ (fi % 2 ^ 52 + 2 ^ 52) * 2 ^ 12 := Nat.mul_le_mul_left _ hp
+        _ < 2 ^ 53 * 2 ^ 12 := Nat.mul_lt_mul_of_pos_right hm (Nat.two_pow_pos 12)
+        _ = 2 ^ 65 := by rw [← Nat.pow_add]
+    · simp only [hge, if_false]
+      exact Nat.lt_of_le_of_lt (Nat.div_le_self _ _) (by omega)
+
+/-- the magnitude `to_f64` computes for a decimal (`(i as f64) / 10^k`, `i` a `u64`,
+`k ≤ 22`) has an exponent field of at most 1088: it is finite. -/
+theorem frac_mag_lt (i k : Nat) (hi : i ≤ U64_MAX) (hk : k ≤ 22) :
+    rneBits (decodeMag (u64ToF64 i)) (10 ^ k) < 1089 * 2 ^ 52 := by
+  have hfi : u64ToF64 i < 1088 * 2 ^ 52 := by
+    unfold u64ToF64
+    have hb : bitLen i ≤ 64 := bitLen_le i 64 (by simp only [U64_MAX] at hi; omega)
+    exact rneBits_lt i 1 1087 (by decide) (by rw [bitLen_one]; omega) (by rw [bitLen_one]; omega) (by omega)
+  have hnum := bitLen_le _ 65 (decodeMag_lt _ hfi)
+  have hden0 : 10 ^ k ≠ 0 := Nat.pos_iff_ne_zero.mp (Nat.pow_pos (by decide))
+  have hden1 : 1 ≤ bitLen (10 ^ k) := by unfold bitLen; rw [if_neg hden0]; omega
+  have hden74 : bitLen (10 ^ k) ≤ 74 := by
+    apply bitLen_le
+    calc 10 ^ k ≤ 10 ^ 22 := Nat.pow_le_pow_right (by decide) hk
+      _ < 2 ^ 74 := by decide
+  exact rneBits_lt _ _ 1088 hden0 (by omega) (by omega) (by omega)
+
+theorem expField_fracVal (neg : Bool) (i k : Nat) (hi : i ≤ U64_MAX) (hk : k ≤ 22) :
+    expField (fracVal neg i k) ≤ 1088 := by
+  have := frac_mag_lt i k hi hk
+  unfold fracVal
+  generalize rneBits (decodeMag (u64ToF64 i)) (10 ^ k) = q at *
+  cases neg <;> simp only [expField, signBit, Bool.false_eq_true, if_false, if_true] <;> omega
+
 
 end Jomini.Scalar
